@@ -125,8 +125,15 @@ def _inline_call(f, bi, g):
     t = b["term"]
     lo = len(f["locals"])
     bo = len(f["blocks"])
-    for l in g["locals"]:
-        f["locals"].append(dict(l))
+    taken = {x.get("name") for x in f["locals"] if x.get("name")}
+    for k, l in enumerate(g["locals"]):
+        l = dict(l)
+        if 1 <= k <= g.get("argc", 0):
+            # the helper's parameters are copies of the arguments: plain temporaries here (a name would make two variables of one value)
+            l["name"] = None
+        elif l.get("name") and l["name"] in taken:
+            l["name"] = l["name"] + "_h"
+        f["locals"].append(l)
     sp = t.get("sp", {})
     for k, a in enumerate(t["args"], start=1):
         if k > g["argc"]:
